@@ -365,6 +365,10 @@ def handle (j : Json) : Except String Json := do
     match FastVerilog.parse (← (← j.getObjVal? "text").getStr?) bbs ord ord with
     | .ok c => pure (respond .ok [("c", circuitToJson c)])
     | .error e => pure (respond e [])
+  | "supergates_check" =>
+    let c2 ← circuitOfJson (← j.getObjVal? "c")
+    let sgs ← (← (← j.getObjVal? "sgs").getArr?).toList.mapM circuitOfJson
+    pure (respond .ok [("ok", Json.bool (Supergates.supergatesOK c2 sgs)), ("why", jstr (Supergates.why c2 sgs))])
   | "verilog_write" =>
     match Verilog.write (← circuitOfJson (← j.getObjVal? "c")) (getBoolD j "behavioral" false) ord with
     | .ok t => pure (respond .ok [("text", jstr t)])
